@@ -201,8 +201,10 @@ func runC09(w *World, r *Report) {
 			r.Check(op == ">=", "R4", "ensureWindowIsUpdated/end-guard", posOf(st), "windowEndTime updated under now %q windowEndTime (want >=)", op)
 			p := Path(st.Val)
 			// epoch + (elapsed / W) * W + W with elapsed = now - epoch
-			ok := strings.Contains(p, "time.Time).Add(") && strings.Contains(p, "time.Time).Sub(") &&
-				strings.Contains(p, " / param:state.windowData.WindowSize) * param:state.windowData.WindowSize)") &&
+			// floor by integer division, or by (time.Duration).Truncate, which rounds toward zero the same way
+			floored := strings.Contains(p, " / param:state.windowData.WindowSize) * param:state.windowData.WindowSize)") ||
+				(strings.Contains(p, "(time.Duration).Truncate((time.Time).Sub(") && strings.Contains(p, "*global:epochTime), param:state.windowData.WindowSize)), param:state.windowData.WindowSize)"))
+			ok := strings.Contains(p, "time.Time).Add(") && strings.Contains(p, "time.Time).Sub(") && floored &&
 				strings.HasSuffix(p, ", param:state.windowData.WindowSize)") && strings.Contains(p, "global:epochTime")
 			r.Check(ok, "R4", "ensureWindowIsUpdated/grid-end", posOf(st), "new window end = %s (want epoch + floor((now-epoch)/W)*W + W)", p)
 			// same critical edge as the counter reset
@@ -246,7 +248,26 @@ func runC09(w *World, r *Report) {
 				continue
 			}
 			n++
-			r.Check(strings.HasSuffix(Path(alt.Val), "groupsStateByLimiter[param:requestArgs]"), "R5", "getLimiterState/returns-keyed-state", posOf(alt.Ret), "returns %s", Path(alt.Val))
+			// the state kept under the caller's key: read from the map, the value a comma-ok lookup
+			// found there, or the very value this call has just stored under that key
+			keyed := strings.HasSuffix(Path(alt.Val), "groupsStateByLimiter[param:requestArgs]")
+			if ex, isEx := unhelp(alt.Val).(*ssa.Extract); isEx && ex.Index == 0 && !keyed {
+				if lk, isLk := ex.Tuple.(*ssa.Lookup); isLk && lk.CommaOk && strings.HasSuffix(Path(lk.X), "groupsStateByLimiter") && isKey(lk.Index) {
+					for _, c := range alt.Conds {
+						if ok, isOk := c.V.(*ssa.Extract); isOk && ok.Tuple == ex.Tuple && ok.Index == 1 && c.Pol {
+							keyed = true
+						}
+					}
+				}
+			}
+			if !keyed {
+				Instrs(gl, func(in ssa.Instruction) {
+					if mu, isMu := in.(*ssa.MapUpdate); isMu && strings.HasSuffix(Path(mu.Map), "groupsStateByLimiter") && isKey(mu.Key) && sameVal(mu.Value, alt.Val) && domInstr(mu, alt.Ret) {
+						keyed = true
+					}
+				})
+			}
+			r.Check(keyed, "R5", "getLimiterState/returns-keyed-state", posOf(alt.Ret), "returns %s", Path(alt.Val))
 		}
 		if n < 3 {
 			r.Undec("R5", "getLimiterState/count", gl.Pos(), "only %d map operations found", n)
